@@ -42,6 +42,7 @@ H.assert_scratch_import()
 from pysph.base.utils import get_particle_array  # noqa: E402
 from pysph.base import nnps as N  # noqa: E402
 from cyarray.api import UIntArray  # noqa: E402
+from pysph.base.octree import Octree, CompressedOctree  # noqa: E402
 try:
     from pysph.base.omp_threads import set_number_of_threads
 except ImportError:                                    # pragma: no cover
@@ -464,6 +465,54 @@ def canon(lists):
     return out
 
 
+def dump_real_tree(cname, cfg, pa):
+    """the REAL octree of one particle array: built by the same builder on the
+    same array as OctreeNNPS._refresh does (Octree.build_tree -> c_build_tree),
+    read back through the Python API of pysph.base.octree (get_root /
+    get_children / get_indices / xmin / length / hmax).  Nested lists
+    ['L', xmin, ymin, zmin, hmax, length, [pids]] / ['N', ..., [children]]."""
+    if pa.get_number_of_particles() == 0:
+        return None
+    cls = Octree if cname == 'OctreeNNPS' else CompressedOctree
+    tree = cls(int(cfg['knobs'].get('leaf_max_particles', 10)))
+    tree.build_tree(pa, bool(cfg['knobs'].get('test_parallel', False)))
+
+    def rec(nd, depth):
+        if depth > 300:
+            raise RuntimeError('octree deeper than 300 levels')
+        head = [float(nd.xmin[0]), float(nd.xmin[1]), float(nd.xmin[2]),
+                float(nd.hmax), float(nd.length)]
+        if nd.is_leaf:
+            ids = [int(v) for v in nd.get_indices(tree).get_npy_array()]
+            return ['L'] + head + [ids]
+        return ['N'] + head + [[rec(c, depth + 1) for c in nd.get_children()
+                                if c is not None]]
+    out = rec(tree.get_root(), 0)
+    del tree
+    return out
+
+
+def tree_tokens(t):
+    head = [t[0]] + [H.qstr(Fraction(v)) for v in t[1:6]]
+    if t[0] == 'L':
+        return head + [','.join(str(j) for j in t[6]) if t[6] else '_']
+    toks = head + [str(len(t[6]))]
+    for c in t[6]:
+        toks += tree_tokens(c)
+    return toks
+
+
+def tree_stats(t):
+    """(nodes, leaves, depth)"""
+    if t[0] == 'L':
+        return 1, 1, 1
+    n, l, d = 1, 0, 0
+    for c in t[6]:
+        a, b, e = tree_stats(c)
+        n, l, d = n + a, l + b, max(d, e)
+    return n, l, d + 1
+
+
 def _cell(v, x0, size):
     return int(math.floor((v - x0) / size))
 
@@ -642,6 +691,12 @@ def run_class(scn, cname, cfg, want_states=None):
                 res.setdefault('impl_text', {})['%d:%d' % (step, mi)] = txt[:4000]
         mode = modes[-1]
         res['steps'].append(shas)
+        if 'Octree' in cname and scn.get('dump_tree', True):
+            try:
+                res.setdefault('trees', []).append(
+                    [dump_real_tree(cname, cfg, pa) for pa in pas])
+            except Exception as e:      # noqa
+                res.setdefault('trees', []).append({'error': '%s: %s' % (type(e).__name__, e)})
     return res
 
 
@@ -819,6 +874,72 @@ def model_line(scn, st, cmd='q'):
             '%s=%s' % (ax, ','.join(qfmt(scn, v) for v in a[ax]) if a[ax] else '_')
             for ax in ('x', 'y', 'z', 'h')))
     return ' '.join(toks)
+
+
+def _arr_tokens(scn, a):
+    return ' '.join('%s=%s' % (ax, ','.join(qfmt(scn, v) for v in a[ax]) if a[ax] else '_')
+                    for ax in ('x', 'y', 'z', 'h'))
+
+
+def tree_line(scn, st, s, tree):
+    """`tree` line of the driver: the real tree of source array s, the source
+    array, every array as a destination"""
+    rs = Fraction(*scn['rs'])
+    return ' '.join(['tree rs=%s' % H.qstr(rs), 'T'] + tree_tokens(tree) +
+                    ['S', _arr_tokens(scn, st[s])] +
+                    ['D ' + _arr_tokens(scn, a) for a in st])
+
+
+def check_real_trees(scns, results, R):
+    """send every dumped REAL octree to the model driver: TreeInv (the
+    hypothesis of tree_query_exact), the leaf index lists hold every source
+    index exactly once, and the model's traversal of that tree returns the
+    brute-force sets.  Anything but ok is a correspondence disagreement."""
+    lines, where = [], []
+    for scn in scns:
+        sid = scn['sid']
+        for c in ('OctreeNNPS', 'CompressedOctreeNNPS'):
+            r = results.get((sid, c))
+            if not r or not r.get('trees'):
+                continue
+            for k, trees in enumerate(r['trees']):
+                if k >= len(r.get('states', [])):
+                    continue
+                if isinstance(trees, dict):
+                    R.count('octree-real-tree:dump-error')
+                    R.disagree({'scenario': scn, 'cls': c, 'step': k}, 'a tree',
+                               trees.get('error'), 'octree-dump')
+                    continue
+                for s, t in enumerate(trees):
+                    if t is None:
+                        continue
+                    try:
+                        lines.append(tree_line(scn, r['states'][k], s, t))
+                    except (ValueError, OverflowError) as e:
+                        R.disagree({'scenario': scn, 'cls': c, 'step': k, 'src': s},
+                                   'finite node data', str(e), 'octree-dump')
+                        continue
+                    where.append((scn, c, k, s, t))
+    outs = run_model_parallel(lines)
+    for (scn, c, k, s, t), o, ln in zip(where, outs, lines):
+        if o == 'bad-op':
+            raise SystemExit('model driver rejected: ' + ln[:300])
+        kv = dict(tok.split('=', 1) for tok in o.split() if '=' in tok)
+        R.count('octree-real-tree:checked')
+        R.count('octree-real-tree:%s' % c)
+        n, l, d = tree_stats(t)
+        R.count('octree-real-tree:depth-%s' % ('1' if d == 1 else '2-3' if d <= 3 else '4+'))
+        if int(kv.get('nodes', -1)) != n:
+            R.disagree({'scenario': scn, 'cls': c, 'step': k, 'src': s}, o, 'nodes=%d' % n,
+                       'octree-node-count')
+        bad = [f for f in ('inv', 'nodup', 'all', 'query') if kv.get(f) != 'ok']
+        if bad:
+            R.count('octree-real-tree:BAD-' + '-'.join(bad))
+            R.disagree({'scenario': scn, 'cls': c, 'cfg': scn['cfgs'][c], 'step': k, 'src': s,
+                        'line': ln[:3000]},
+                       'TreeInv / exactly-once / exact traversal hold on the real tree', o,
+                       'octree-TreeInv' if ('inv' in bad or 'nodup' in bad or 'all' in bad)
+                       else 'octree-model-traversal')
 
 
 def run_model_parallel(lines, nthreads=12):
@@ -1017,6 +1138,7 @@ def evaluate(scns, R, work, tag, nproc=16):
                     'n': [len(a['h']) for a in scn['arrays']], 'cls': c,
                     'cfg': r.get('cfg'), 'model': model[(sid, 0)][3][:300] if (sid, 0) in model else None,
                     'impl_sha': r.get('steps')} if len(R.d['samples']) < 4 and c == 'ZOrderNNPS' else None)
+    check_real_trees(scns, results, R)
     return results
 
 
@@ -1110,6 +1232,11 @@ def main():
     scns += [gen_scenario(rng, 's%d' % k, big=(a.tier != 'quick' and k % 10 == 0))
              for k in range(nscn)]
     scns += [gen_nondyadic(rng, 'n%d' % k) for k in range(10 if a.tier == 'quick' else 100)]
+    # the real octrees are dumped and checked (TreeInv) for every scenario of a quick
+    # run; a thorough run samples the larger ones (every 4th)
+    for k, scn in enumerate(scns):
+        scn['dump_tree'] = (a.tier == 'quick' or k % 4 == 0 or
+                            sum(len(arr['h']) for arr in scn['arrays']) <= 80)
     t0 = time.time()
     evaluate(scns, R, a.work, 'main')
     R.note('main pass: %d scenarios x 12 classes in %.0f s' % (len(scns), time.time() - t0))
